@@ -64,6 +64,14 @@ def cases(tier, seed=0):
             "N0 = Src()\nE = Every(S = 'single \\'quoted\\'', LS = ['it\\'s', \"say \\\"x\\\"\"])"]
     for s in srcs:
         out.append({"mode": "source", "source": s})
+    # real-library programs whose arguments are exactly the ones an EEMS 2.0 conversion would drop, alone and after an EEMS 2.0 file was loaded
+    # in the same process (loading must not depend on what was loaded before)
+    CSVL = ["mpilot.libraries.eems.csv", "mpilot.libraries.eems.basic", "mpilot.libraries.eems.fuzzy"]
+    real = ("R = EEMSRead(InFileName = /abs/in.csv, InFieldName = a, NewFieldName = b)\n"
+            "S = Sum(InFieldNames = [R, R])\nW = EEMSWrite(OutFileName = /abs/out.csv, OutFieldNames = [R, S])")
+    out.append({"mode": "source", "source": real, "libraries": CSVL})
+    out.append({"mode": "source", "source": real, "libraries": CSVL, "preload": "READ(InFileName = /abs/in.csv, InFieldName = x)\nSUM(InFieldNames = [x, x], NewFieldName = y)\n"})
+    out.append({"mode": "source", "source": srcs[0], "preload": "READ(InFileName = /abs/in.csv, InFieldName = x)\n"})
     if tier != "quick":
         for _ in range(300):
             args = {}
@@ -82,6 +90,9 @@ def cases(tier, seed=0):
 def judge(case, o):
     if "harness_error" in o:
         return [("harness-error", o["harness_error"][-300:])]
+    if case.get("preload") and "build_error" in o:
+        # the same text loads in a fresh process (it is also a case without preload): loading depends on what was loaded before
+        return [("roundtrip", "after another model was loaded in this process the program no longer loads: %s" % o["build_error"][:200])]
     if "build_error" in o or "describe_error" in o:
         return [("harness-error", str(o)[:300])]
     if "to_string_error" in o:
